@@ -124,6 +124,43 @@ mut('C12', 'worker_teardown_calls_removed', S, """				defer func() {
 				}()
 """, "")
 
+# ---- C09 daemon
+D = 'internal/scheduler/scheduler.go'
+J = 'internal/scheduler/job.go'
+mut('C09', 'read_at_tick_instead_of_one_second_before', D, """s.entryReader.Read(now.Add(-time.Second))""", """s.entryReader.Read(now)""")
+mut('C09', 'after_becomes_not_before', D, """		if t.After(now) {
+			break""", """		if !t.Before(now) {
+			break""")
+mut('C09', 'next_tick_two_minutes', D, """return now.Add(time.Minute).Truncate(time.Second * 60)""", """return now.Add(2 * time.Minute).Truncate(time.Second * 60)""")
+mut('C09', 'tick_not_advanced_from_previous', D, """			t = s.nextTick(t)""", """			t = s.nextTick(now())""")
+mut('C09', 'sort_removed', D, """	sort.SliceStable(entries, func(i, j int) bool {
+		return entries[i].Next.Before(entries[j].Next)
+	})
+""", """	_ = sort.SliceStable
+""")
+mut('C09', 'sort_descending', D, """		return entries[i].Next.Before(entries[j].Next)""", """		return entries[j].Next.Before(entries[i].Next)""")
+mut('C09', 'zero_next_fires_again', D, """		if t.IsZero() {
+			// The schedule has no activation time at all (e.g. "0 0 30 2 *"):
+			// cron reports that as the zero time, which must not count as due.
+			continue
+		}
+""", "")
+mut('C09', 'stop_entries_dispatch_start', D, """	case entryTypeStop:
+		return e.Job.Stop()""", """	case entryTypeStop:
+		return e.Job.Start()""")
+mut('C09', 'start_guard_equal_case_dropped', J, """		if lastExecTime.After(j.Next) || j.Next.Equal(lastExecTime) {""", """		if lastExecTime.After(j.Next) {""")
+mut('C09', 'start_guard_ignores_running', J, """	if latestStatus.Status == dagscheduler.StatusRunning {
+		// already running
+		return errJobRunning
+	}
+
+	// check the last execution time""", """	// check the last execution time""")
+mut('C09', 'stop_without_running_check', J, """	if latestStatus.Status != dagscheduler.StatusRunning {
+		return errJobIsNotRunning
+	}
+""", """	_ = latestStatus
+""")
+
 def main():
     import glob
     for f in glob.glob(V + '/C*/*.patch'):
